@@ -121,6 +121,34 @@ def measure(job):
         out.append(("normal_toeplitz" if tz else "normal_exact", np.linalg.norm(Nn - AHA) / max(np.linalg.norm(AHA), 1e-300), "A.N vs A^H A (toeplitz=%s)" % tz))
         GH, _ = linop_build.dense(L.H)
         out.append(("adjoint_exact", np.linalg.norm(GH - Fw.conj().T) / max(np.linalg.norm(Fw), 1e-300), "linop NUFFT.H vs dense(A)^H"))
+    # operator level with NON-default oversamp / width: NUFFT, a directly constructed NUFFTAdjoint, and their adjoints taken from
+    # either side (Linop.H caches only one direction: A.H.H is rebuilt by NUFFTAdjoint._adjoint_linop) must carry the same parameters
+    for os_, w in [pw for pw in pairs if pw != (1.25, 4)][:2]:
+        coord = pts.copy()
+        L = sp.linop.NUFFT(shape, coord, oversamp=os_, width=w)
+        Fw = dense_fn(lambda v: L(v), shape, [npts])
+        nFw = max(np.linalg.norm(Fw), 1e-300)
+        for label, op, ref in (("NUFFT.H", L.H, Fw.conj().T), ("NUFFT.H.H", L.H.H, Fw), ("(2j*NUFFT).H.H", (2j * L).H.H, 2j * Fw)):
+            M, _ = linop_build.dense(op)
+            out.append(("adjoint_exact", np.linalg.norm(M - ref) / nFw, "%s vs the dense matrix (oversamp=%s, width=%s)" % (label, os_, w)))
+        B = sp.linop.NUFFTAdjoint(shape, coord, oversamp=os_, width=w)
+        Bm, _ = linop_build.dense(B)
+        BH, _ = linop_build.dense(B.H)
+        out.append(("adjoint_exact", np.linalg.norm(BH - Bm.conj().T) / max(np.linalg.norm(Bm), 1e-300), "NUFFTAdjoint(...).H vs dense(NUFFTAdjoint)^H (oversamp=%s, width=%s)" % (os_, w)))
+        out.append(("adjoint_exact", np.linalg.norm(Bm - Fw.conj().T) / nFw, "NUFFTAdjoint(...) vs dense(NUFFT)^H (oversamp=%s, width=%s)" % (os_, w)))
+        Nn = dense_fn(lambda v: L.N(v), shape, shape)
+        out.append(("normal_exact", np.linalg.norm(Nn - Fw.conj().T @ Fw) / max(np.linalg.norm(Fw.conj().T @ Fw), 1e-300), "A.N vs A^H A (oversamp=%s, width=%s)" % (os_, w)))
+    # leading batch axes in the operator's input shape (coils, frames): the normal operator, exact and Toeplitz
+    if int(np.prod(shape)) <= 64:
+        for nb in ([2], [1], [2, 2]):
+            bshape = nb + shape
+            for tz in (False, True):
+                coord = pts.copy()
+                Lb = sp.linop.NUFFT(bshape, coord, toeplitz=tz)
+                Fb, _ = linop_build.dense(Lb)
+                Nb, _ = linop_build.dense(Lb.N)
+                AHAb = Fb.conj().T @ Fb
+                out.append(("normal_toeplitz" if tz else "normal_exact", np.linalg.norm(Nb - AHAb) / max(np.linalg.norm(AHAb), 1e-300), "A.N vs A^H A with input shape %s (toeplitz=%s)" % (bshape, tz)))
     meta = {"shape": shape, "family": st["cfg"]["family"], "npts": npts}
     return meta, [(c, float(v), note) for c, v, note in out]
 
